@@ -7,6 +7,11 @@ import scipy.sparse as sp
 from .. import coqrun as cq
 from .. import gen
 
+def _nn(v):
+    """NaN counts as 'exceeds every bound' in the oracle comparisons"""
+    return np.inf if np.isnan(v) else v
+
+
 TECHNIQUE = 'Coq/mathcomp proof that Ritz values are bounded by the spectral radius + bit-exact utility-kernel correspondence + definition oracle per storage format'
 LEVEL_TEXT = ('Kernel-checked theorem (Props/C19.v, mathcomp, any real field): for a symmetric matrix, an orthonormal basis V '
               'and H = V^T A V, every eigenvalue of H with a nonzero eigenvector is bounded in modulus by any bound of the '
@@ -111,24 +116,24 @@ def oracle(ctx, U, LA, D, rng, base):
             except Exception as e:   # noqa
                 ctx.fail('%s/%s/raises' % (nm, fmt), repr(e), case)
                 continue
-            if np.abs(B.toarray() - want).max() > 1e-14 * (1 + np.abs(want).max()):
+            if _nn(np.abs(B.toarray() - want).max()) > 1e-14 * (1 + np.abs(want).max()):
                 ctx.fail('%s/%s/wrong' % (nm, fmt), 'differs from the diagonal product', case)
             if np.abs(A.toarray() - keep).max() != 0:
                 ctx.fail('%s/%s/copy-modified-input' % (nm, fmt), 'input changed although copy=True', case)
             if fmt in ('csr', 'csc', 'bsr'):
                 A2 = A.copy().astype(float)
                 f(A2, v, copy=False)
-                if np.abs(A2.toarray() - want).max() > 1e-14 * (1 + np.abs(want).max()):
+                if _nn(np.abs(A2.toarray() - want).max()) > 1e-14 * (1 + np.abs(want).max()):
                     ctx.fail('%s/%s/inplace-wrong' % (nm, fmt), 'in-place result differs from the diagonal product', case)
     A = sp.csr_array(D)
     # diagonals
     for norm_eq, want in ((0, np.diag(D)), (1, (D * D).sum(0)), (2, (D * D).sum(1))):
         got = U.get_diagonal(sp.csr_array(D), norm_eq=norm_eq, inv=False)
-        if np.abs(np.ravel(got) - want).max() > 1e-13 * (1 + np.abs(want).max()):
+        if _nn(np.abs(np.ravel(got) - want).max()) > 1e-13 * (1 + np.abs(want).max()):
             ctx.fail('get_diagonal/norm_eq=%d' % norm_eq, 'got %s want %s' % (np.ravel(got), want), base)
         inv = np.ravel(U.get_diagonal(sp.csr_array(D), norm_eq=norm_eq, inv=True))
         w2 = np.where(want != 0, 1.0 / np.where(want != 0, want, 1), 0)
-        if np.abs(inv - w2).max() > 1e-13 * (1 + np.abs(w2).max()):
+        if _nn(np.abs(inv - w2).max()) > 1e-13 * (1 + np.abs(w2).max()):
             ctx.fail('get_diagonal/inv/norm_eq=%d' % norm_eq, 'inverse diagonal wrong', base)
     # block diagonal and its (pseudo-)inverse
     for bs in bs_opts:
@@ -140,7 +145,7 @@ def oracle(ctx, U, LA, D, rng, base):
         bi = U.get_block_diag(sp.csr_array(D), blocksize=bs, inv_flag=True)
         for k in range(nb):
             Wp = np.linalg.pinv(want[k])
-            if np.linalg.cond(want[k]) < 1e8 and np.abs(bi[k] - Wp).max() > 1e-8 * (1 + np.abs(Wp).max()):
+            if np.linalg.cond(want[k]) < 1e8 and _nn(np.abs(bi[k] - Wp).max()) > 1e-8 * (1 + np.abs(Wp).max()):
                 ctx.fail('get_block_diag/inverse', 'block %d (blocksize %d) is not the (pseudo-)inverse' % (k, bs), base)
                 break
     # symmetric rescaling to unit diagonal
@@ -149,7 +154,7 @@ def oracle(ctx, U, LA, D, rng, base):
     if np.all(d > 0):
         Dsq, Dinv, DAD = U.symmetric_rescaling(sp.csr_array(S))
         want = S / np.sqrt(np.outer(d, d))
-        if np.abs(DAD.toarray() - want).max() > 1e-13 or np.abs(np.diag(DAD.toarray()) - 1).max() > 1e-13:
+        if _nn(np.abs(DAD.toarray() - want).max()) > 1e-13 or _nn(np.abs(np.diag(DAD.toarray()) - 1).max()) > 1e-13:
             ctx.fail('symmetric_rescaling', 'D^-1/2 A D^-1/2 wrong', base)
     # row / column filtering and truncation
     theta = rng.choice([0.0, 0.3, 0.6])
